@@ -180,8 +180,8 @@ CONFIG = {
     'C16': {
         'profiles': [('codec', 3000, 100000)],
         'rules': [(r'CODEC:.*', 'C', None)],
-        'level_text': 'Theorems for all byte strings and all values: the model codec equals an independent literal-offset layout of the CCTP formats, decode-then-encode and encode-then-decode are identities on valid sizes / well-formed values, wrong sizes are rejected. The Go Parse/Bytes functions are tied to the model by differential execution on generated and boundary-length inputs.',
-        'assumptions': ['integers of a decoded Message are uint32/uint64 in Go; the encode->decode theorem states those ranges as message_wf / burn_wf'],
+        'level_text': 'Theorems for all byte strings and all values: the model codec equals an independent literal-offset layout of the CCTP formats, decode-then-encode and encode-then-decode are identities on valid sizes / well-formed values, wrong sizes are rejected. The Go Parse/Bytes functions are tied to the model twice: (1) by translation - tools/goextract translates Message.Parse/Bytes and BurnMessage.Parse/Bytes of /repo into a small codec representation on every run (guards, offsets and widths with constants resolved by value, readers/writers, temporaries resolved) and C16_go_source_translates_to_the_model proves that what was generated is well-formed and means exactly the model decoders/encoders for every input; (2) by differential execution on generated and boundary-length inputs.',
+        'assumptions': ['the meaning Gen/CodecIR.v gives to the accepted Go statement forms (slice reads, BigEndian.UintK/PutUintK, big.Int SetBytes/FillBytes, copy into a tiling of the result buffer) is trusted with the translator', 'integers of a decoded Message are uint32/uint64 in Go; the encode->decode theorem states those ranges as message_wf / burn_wf'],
     },
 }
 
